@@ -20,7 +20,8 @@ struct Xw<'a> {
 }
 
 fn esc_text(s: &str) -> String {
-    s.replace('&', "&amp;").replace('<', "&lt;").replace('>', "&gt;")
+    // a literal carriage return would be normalised to a line feed by every XML parser
+    s.replace('&', "&amp;").replace('<', "&lt;").replace('>', "&gt;").replace('\r', "&#13;")
 }
 fn esc_attr(s: &str, q: char) -> String {
     let mut o = s.replace('&', "&amp;").replace('<', "&lt;");
@@ -29,7 +30,7 @@ fn esc_attr(s: &str, q: char) -> String {
     } else {
         o = o.replace('\'', "&apos;");
     }
-    o.replace('\n', "&#10;").replace('\t', "&#9;")
+    o.replace('\n', "&#10;").replace('\t', "&#9;").replace('\r', "&#13;")
 }
 
 impl<'a> Xw<'a> {
@@ -125,7 +126,7 @@ impl<'a> Xw<'a> {
         if string_value {
             // CDATA (split where needed), escaped text, or a mixture
             match self.rng.below(3) {
-                0 if !text.contains("]]>") => {
+                0 if !text.contains("]]>") && !text.contains('\r') => {
                     self.out.push_str("<![CDATA[");
                     self.out.push_str(text);
                     self.out.push_str("]]>");
@@ -133,7 +134,7 @@ impl<'a> Xw<'a> {
                 1 => {
                     let cut = text.char_indices().nth(text.chars().count() / 2).map(|x| x.0).unwrap_or(0);
                     self.out.push_str(&esc_text(&text[..cut]));
-                    if !text[cut..].contains("]]>") {
+                    if !text[cut..].contains("]]>") && !text[cut..].contains('\r') {
                         self.out.push_str("<![CDATA[");
                         self.out.push_str(&text[cut..]);
                         self.out.push_str("]]>");
@@ -215,7 +216,10 @@ impl<'a> Xw<'a> {
             let t = self.name(tag);
             self.open(&t, &[("type", "Structure".into())]);
             self.float("dateTimeValue", &Some(d.0));
-            self.int("isAtomicClockReferenced", if d.1 { 1 } else { 0 });
+            // the flag is optional in the standard (default: not referenced)
+            if d.1 || self.rng.chance(2, 3) {
+                self.int("isAtomicClockReferenced", if d.1 { 1 } else { 0 });
+            }
             self.close(&t);
         }
     }
@@ -726,7 +730,7 @@ pub fn exec(line: &str) -> String {
 /// scenes the specification covers: no string-typed attributes (none can be generated), limits
 /// complete or absent; strings must be XML 1.0 characters (the generator only makes such strings)
 fn scene_ok(sc: &Scene) -> bool {
-    let str_ok = |s: &str| s.chars().all(|c| c == '\t' || c == '\n' || (c >= ' ' && c != '\u{FFFE}' && c != '\u{FFFF}')) && !s.contains('\r');
+    let str_ok = |s: &str| s.chars().all(|c| c == '\t' || c == '\n' || (c >= ' ' && c != '\u{FFFE}' && c != '\u{FFFF}') || c == '\r');
     let mut all: Vec<&str> = vec![&sc.guid];
     for c in &sc.clouds {
         all.extend(c.guid.as_deref());
@@ -771,6 +775,35 @@ pub fn encoded_files(rng: &mut Rng, n: usize) -> Option<Vec<Vec<u8>>> {
     }
     let files = run_model("enc", &enc_lines)?;
     Some(files.iter().filter_map(|h| unhex(h)).collect())
+}
+
+/// `n` XML documents in the lexical variants of the specification encoder's XML writer (for the xml engine)
+pub fn variant_xmls(rng: &mut Rng, n: usize) -> Vec<String> {
+    let lv = "independent spec encoder".to_string();
+    let mut out = vec![];
+    let mut tries = 0;
+    while out.len() < n && tries < 6 * n {
+        tries += 1;
+        let prog = {
+            let mut g = Gen { rng, exts: vec![], n: 0 };
+            g.program(4)
+        };
+        let dev = crate::dev::SimDev::new(vec![]);
+        let run = execute(&prog, &dev);
+        if run.panicked || run.results.last().map(|s| s != "ok").unwrap_or(true) {
+            continue;
+        }
+        let mut sc = expected_scene(&prog, &run.results);
+        sc.blobs.clear();
+        let mut urls: Vec<&String> = sc.exts.iter().map(|e| &e.1).collect();
+        urls.sort();
+        urls.dedup();
+        if !scene_ok(&sc) || sc.exts.iter().any(|e| e.1.is_empty() || e.1 == NS) || urls.len() != sc.exts.len() {
+            continue;
+        }
+        out.push(plan(rng, &sc, &lv).xml);
+    }
+    out
 }
 
 pub fn generate(sink: &mut Sink, seed: u64, thorough: bool) {
